@@ -430,6 +430,12 @@ def s7(prog, ctx, fns):
                     for lhs2, rhs2, st2, kind2 in query.stores(f):
                         if kind2 == "++" and render(lhs2) in stxt and cfg.node_dominates(st2, c):
                             guard_ok = True
+                        # `n += 1` / `n = n + 1` of an unsigned count
+                        elif render(lhs2) in stxt and cfg.node_dominates(st2, c) and rhs2 is not None and (
+                                lhs2.strip().j.get("sg") is False or "unsigned" in (lhs2.strip().j.get("ct") or "")) and (
+                                (kind2 in ("+=", "op=") and st2.j.get("op") == "+=" and (rhs2.const_value() or 0) >= 1) or
+                                (kind2 == "=" and render(rhs2).replace(" ", "") in ("%s+1" % render(lhs2).replace(" ", ""), "1+%s" % render(lhs2).replace(" ", "")))):
+                            guard_ok = True
                 if not guard_ok:
                     # a capacity variable: set to positive constants only, otherwise only handed to getline/getdelim (which never shrink it to 0)
                     s0 = size.strip()
